@@ -1,6 +1,7 @@
 package valid
 
 import (
+	"errors"
 	"fmt"
 	"reflect"
 	"strconv"
@@ -107,7 +108,7 @@ func CheckFieldIsStr(objName, fieldName string, tv reflect.Value) (err error) {
 	switch tv.Kind() {
 	case reflect.String:
 	default:
-		err = fmt.Errorf(GetJoinValidErrStr(objName, fieldName, tv.String(), ExplainEn, "it must is string"))
+		err = errors.New(GetJoinValidErrStr(objName, fieldName, tv.String(), ExplainEn, "it must is string"))
 	}
 	return
 }
